@@ -260,6 +260,43 @@ def handle (op : String) (j : Json) : Except String Json := do
       let failed := if impl.isNull || (op == "find_any" && name.isEmpty) then [] else
         if impl.compress == (declsJ spec).compress then [] else ["result≠spec"]
       pure (Json.mkObj [("model", declsJ r), ("failed", clauses failed)])
+  | "find_single" =>
+    -- FindResult.has_one_instance / get_single_instance for every type hint, on the result of find_fqn
+    let ast := jvalOfJson (← field j "ast")
+    let name ← idsField j "name"
+    let scope := (idsField j "scope").toOption.getD []
+    match Parser.parse ast with
+    | .error e => pure (Json.mkObj [("model", errJson e), ("failed", clauses [])])
+    | .ok f =>
+      let items := AstView.findFqn f name scope
+      let hints : List AstView.Hint := [.absent, .kind "component", .kind "enum", .kind "extern", .kind "foreign",
+        .kind "interface", .kind "subint", .kind "system", .invalid]
+      let one (h : AstView.Hint) : Json := Json.mkObj [
+        ("has", resJson Json.bool (AstView.hasOne items h)),
+        ("get", resJson (fun d => Json.arr #[Json.str d.kind, idsJ d.fqn]) (AstView.getSingleH items h))]
+      let model := Json.arr (hints.map one).toArray
+      -- specification on the IMPLEMENTATION's answers: exactly one declaration on the scope chain, of the
+      -- hinted kind, is handed out; everything else is a FindError; has_one_instance agrees with it
+      let spec := Spec.findFqnSpec f name scope
+      let failed : List String := if impl.isNull then [] else
+        match impl.getArr? with
+        | .ok a =>
+          if a.size ≠ hints.length then ["impl-error"] else
+          (hints.zip a.toList).flatMap fun (h, x) =>
+            let want : Option Decl := match spec, h with
+              | [d], .absent => some d
+              | [d], .kind k => if d.kind == k then some d else none
+              | _, _ => none
+            let getJ := fieldD x "get" Json.null
+            let hasJ := fieldD x "has" Json.null
+            (match want with
+             | some d => if getJ.compress == (okJson (Json.arr #[Json.str d.kind, idsJ d.fqn])).compress then [] else ["get_single_instance≠the-unique-declaration"]
+             | none => if implTag getJ == "lib:FindError" then [] else ["get_single_instance-should-raise-FindError:" ++ implTag getJ]) ++
+            (match h, spec with
+             | .invalid, [_] => if implTag hasJ == "lib:FindError" then [] else ["has_one_instance-invalid-hint"]
+             | _, _ => if hasJ.compress == (okJson (Json.bool want.isSome)).compress then [] else ["has_one_instance≠get_single_instance-succeeds"])
+        | _ => ["impl-error"]
+      pure (Json.mkObj [("model", model), ("failed", clauses failed)])
   | "ids_t" =>
     let arg := idsArgOf (← field j "value")
     let r := namespaceidsT arg
